@@ -472,6 +472,32 @@ def c204(ctx):
                       "perform_compaction runs the claim returned by next_compaction", "perform_compaction is not given next_compaction's claim", pt=pt)
         nc = ctx.calls(R, f, r"lsmtk::tree::Version::next_compaction$")
         held_at(ctx, R, f, nc, "next_compaction (selection)", lock="LsmTree.compaction")
+    # a chosen compaction ends either applied (which removes its claim) or in an error (which compaction_thread turns into a release):
+    # no success return of the functions that carry it out without the step that consumes the claim
+    for name, done in (("perform_compaction", r"apply_moving_compaction$|perform_garbage_collection$|compaction_finish$"),
+                       ("perform_garbage_collection", r"compaction_finish$"),
+                       ("compaction_finish", r"apply_manifest_compaction$"),
+                       ("apply_manifest_compaction", r"lsmtk::tree::Version::apply_compaction$"),
+                       ("apply_moving_compaction", r"lsmtk::tree::Version::apply_compaction$")):
+        f = ctx.fn(R, TREE + name)
+        if not f:
+            continue
+        pts = P.call_points(f, TREE + "(?:%s)" % done if not done.startswith("lsmtk::") else done)
+        ctx.floor(R, "%s: steps that consume the claim" % name, len(pts), 1)
+        # an arm that matched `Err(_)` of some Result is an error path, whatever it returns (`return err.with_debug_field(..)`)
+        err_edges = set()
+        for b in P.switch_blocks(f):
+            for x in K.cond_sources(f, b.idx):
+                if x["k"] == "discr":
+                    pl = x["st"]["rv"].get("pl") or {}
+                    ty = f.locals[pl["l"]] if not pl.get("p") else ""
+                    if ty.startswith("core::result::Result<") or ty.startswith("&core::result::Result<"):
+                        err_edges.add((b.idx, "sw:1"))
+        q = P.must_pass(f, pts, avoid_edges=err_edges)
+        ctx.check(R, f, "claim-applied-or-error", q is None, "every success return of %s has applied the compaction" % name,
+                  "%s can return Ok without having applied the compaction it was given: the claim stays in `ongoing` for ever (only apply_compaction and "
+                  "the error path of compaction_thread remove it), every candidate that overlaps it is refused, and a level-0 claim left behind ends in "
+                  "the ingest stall" % name, path=q)
     for name in ("apply_compaction", "release_compaction"):
         f = ctx.fn(R, "lsmtk::tree::Version::" + name)
         if f:
